@@ -35,6 +35,13 @@ def cases(tier, seed):
             if K != "K0" and tier == "quick":
                 rat = rat and p <= 1
             yield (K, p, U, rat)
+    for c in far_cases(tier):
+        yield c
+
+
+def far_cases(tier):
+    for p, U in al.knotvectors("K6", 3, 1 if tier == "quick" else 2, pmin=1):
+        yield ("K6", p, U, False)
 
 
 def describe(case):
@@ -114,6 +121,12 @@ def run_case(case, res):
     gen, gen2 = al.generic_points(n), al.generic_points(n, 2)
     for e in al.unit_vectors(n):
         check(res, U, p, e, None, "frac")
+    if K == "K6":
+        # knots of magnitude 1e9 with unit spacing: exact data only (the differences of the exact knots are what matters)
+        check(res, U, p, gen, None, "frac")
+        check(res, U, p, gen2, None, "frac")
+        check(res, U, p, gen, al.generic_weights(n), "frac") if p <= 2 else None
+        return res.observe(sorted(res.outcomes.items()))
     for P, rep in ((gen, "frac"), (gen2, "frac"), (gen, "float"), (gen2, "float"), (gen, "npfloat")):
         check(res, U, p, P, None, rep)
     if all(k.denominator == 1 for k in U):
